@@ -89,6 +89,24 @@ def ready_value(ex, out):
     return None
 
 
+def coroutine_arg_after(ex, out, struct_name, index=None):
+    """reference (in the path's own copy of the state) that the coroutine of a returning / stopped path
+    holds to its argument of struct type `struct_name`"""
+    co = ex.deref_value(out.state.frames[0].locals["_1"].v)
+    cands = list(co.upvars or []) + [f for p in co.payload.values() if isinstance(p, S.Agg) for f in p.fields]
+    if index is not None and index < len(co.upvars or []) and isinstance(co.upvars[index], S.Ref):
+        cands = [co.upvars[index]] + cands
+    for c in cands:
+        if isinstance(c, S.Ref):
+            try:
+                pv = ex.deref_value(c)
+            except Exception:
+                continue
+            if isinstance(pv, S.Agg) and pv.name == struct_name:
+                return c
+    return None
+
+
 def calls(out, pattern):
     return [e for e in out.events if e[0] in ("call", "enter") and re.search(pattern, e[1])]
 
